@@ -106,7 +106,8 @@ def build_obj(kind, item, n, bad):
             return H.VAlien()
         return j if item == 'int' else 's%d' % j
     items = [leaf(j) for j in range(n)]
-    pairs = [(j, leaf(j)) for j in range(n)]
+    # keys are far from 0..n-1: a check that indexes a mapping by position then misses (and wakes default factories)
+    pairs = [(1000 + 7 * j, leaf(j)) for j in range(n)]
     spies.ACTIVE[0] = False
     try:
         if kind in ('SpyIterator', 'SpySizedIterator', 'SpyContainerIterator'):
@@ -169,10 +170,30 @@ def snapshot(kind, x):
         spies.ACTIVE[0] = True
 
 
+def _complete_natural():
+    """Every object kind that is an instance of a family's ABC belongs to that family's natural pool (mappings are Reversible,
+    Collections, Containers and Iterables too): the hand-written table above is extended, never narrowed."""
+    import collections.abc as cabc
+    abc_of = {'Iterable': cabc.Iterable, 'TIterable': cabc.Iterable, 'Iterator': cabc.Iterator, 'Container': cabc.Container,
+              'Reversible': cabc.Reversible, 'Collection': cabc.Collection, 'Sequence': cabc.Sequence, 'Mapping': cabc.Mapping,
+              'MutableMapping': cabc.MutableMapping, 'dict': dict, 'set': set, 'list': list, 'deque': collections.deque}
+    for fam, abc in abc_of.items():
+        for kind in OBJ_KINDS:
+            try:
+                o = build_obj(kind, 'int', 1, 'none')
+                if isinstance(o, abc) and kind not in NATURAL[fam]:
+                    NATURAL[fam].append(kind)
+            except Exception:
+                pass
+
+
 READ_ONLY = {'__len__', '__iter__', 'iterator.__next__', '__getitem__', 'keys', 'values', 'items', 'get', '__contains__',
              '__reversed__', '__repr__', 'keys.__iter__', 'values.__iter__', 'items.__iter__', 'keys.__contains__',
              'values.__contains__', 'items.__contains__'}
 NON_COLLECTIONS = {'SpyIterator', 'SpyIterable', 'SpySizedIterator', 'SpyContainerIterator'}
+
+
+_complete_natural()
 
 
 @st.composite
